@@ -860,6 +860,8 @@ class TextString(Base):
                         0,
                         pad
                     )
+        else:
+            self.padding_length = 0
 
     def read(self, istream, kmip_version=enums.KMIPVersion.KMIP_1_0):
         super(TextString, self).read(istream, kmip_version=kmip_version)
